@@ -261,6 +261,9 @@ def run(tier, replay=None):
     # ---- R4 leaf convention
     run_r4(chk, fns)
 
+    run_r6(chk, fns)
+    run_r7(chk, fns)
+
     # ---- R5 descent guard
     run_r5(chk, [f for f in F.functions if f['inst'] in (0, 2)])
 
@@ -598,6 +601,108 @@ def run_r3b(chk, fns, G, only=None, min_count=4):
                    if not isinstance(c, tuple) and c.get('k') not in ('ForStmt', 'WhileStmt', 'CXXForRangeStmt'))[:200]),
                key='R3b|%s' % f['name'])
     chk.expect_count('R3b', 'functions creating nodes and maintaining dimension_', n, min_count)
+
+
+def run_r6(chk, fns):
+    """R6: a per-label node list is only dropped when it is empty: erasing an entry of nodes_label_to_list_ destroys an
+    auto-unlink intrusive list, which silently unlinks every node still on it (the cofaces of that label are no longer
+    found). Every erase of an entry is dominated by an emptiness test of that list; whole-container clear() is allowed
+    only where all nodes are deleted too."""
+    from gsa import predeval
+    n = 0
+    for f in fns:
+        erases = [x for x in ir.walk(f.get('body')) if ir.is_call(x) and ir.call_name(x) == 'erase' and
+                  ir.call_receiver(x) is not None and ir.show(ir.call_receiver(x)) == 'nodes_label_to_list_']
+        if not erases:
+            continue
+
+        def cl(x, erases=erases):
+            return ['ERASE'] if any(x is e for e in erases) else []
+        ps = paths.enumerate_paths(f, cl, loop_mode='1', keep_conds=True)
+        for e in erases:
+            n += 1
+            bad = None
+            for p in ps:
+                guarded = False
+                for tag, node in p.events:
+                    if tag == 'ERASE' and node is e:
+                        if not guarded and bad is None:
+                            bad = p
+                        break
+                    if tag == '?' and not isinstance(node[0], tuple):
+                        t = ir.show(node[0])
+                        if ('nodes_label_to_list_' in t or 'list' in t) and 'empty()' in t and node[1] and \
+                                not t.startswith('!'):
+                            guarded = True
+            chk.ob('R6-label-list', '%s erases a per-label list only after testing that it is empty' % f['name'],
+                   '%s:%s' % (rel(f['file']), e.get('l')), bad is None,
+                   '' if bad is None else 'the entry is erased on a path that never tested the list for emptiness: '
+                   'the other nodes with this label are unlinked with it', key='R6|%s|label-list' % f['name'])
+    chk.expect_count('R6', 'erasures of per-label lists', n, 1)
+
+
+def run_r7(chk, fns):
+    """R7: equality is decided node by node by rec_equal: on every valuation of (left node has children, right node has
+    children, children equal) the walk continues iff both agree and, when they have children, the children are equal.
+    (Evaluated on all 8 valuations; label and value comparisons are set to equal.)"""
+    from gsa import predeval
+    fs = [f for f in fns if f['name'] == 'rec_equal']
+    if len(fs) != 1:
+        raise AnalysisBroken('C01: rec_equal not found')
+    f = fs[0]
+    loops = [x for x in ir.walk(f['body']) if x.get('k') == 'ForStmt']
+    if len(loops) != 1:
+        raise AnalysisBroken('C01: rec_equal: the loop over the two member lists was not found')
+    body = loops[0].get('body')
+    p1, p2 = None, None
+    for x in ir.walk(loops[0]):
+        if ir.is_call(x) and ir.call_name(x) == 'has_children':
+            a = ir.show(ir.call_args(x)[0])
+            if p1 is None:
+                p1 = a
+            elif a != p1 and p2 is None:
+                p2 = a
+    if p1 is None or p2 is None:
+        raise AnalysisBroken('C01: rec_equal: the two handles were not identified')
+    bad = None
+    n = 0
+    for h1 in (False, True):
+        for h2 in (False, True):
+            for rec in (False, True):
+                n += 1
+
+                def oracle(e, env, h1=h1, h2=h2, rec=rec):
+                    if ir.is_call(e):
+                        nm = ir.call_name(e)
+                        if nm == 'has_children':
+                            a = ir.show(ir.call_args(e)[0])
+                            return h1 if a == p1 else h2
+                        if nm == 'rec_equal':
+                            return rec
+                    if e.get('k') in ('BinaryOperator', 'CXXOperatorCallExpr') and e.get('op') in ('!=', '=='):
+                        t = ir.show(e)
+                        if 'has_children' in t:
+                            return None
+                        # labels / filtration values of the two nodes: equal in this enumeration
+                        return e['op'] == '=='
+                    return None
+                ev = predeval.Evaluator(oracle)
+                try:
+                    try:
+                        ev.stmt(body)
+                        cont = True
+                    except predeval.Return as r:
+                        cont = False if r.v is False else None
+                except predeval.Unknown as ex:
+                    raise AnalysisBroken('C01: rec_equal has a shape the evaluator does not know: %s' % ex)
+                exp = (h1 == h2) and (not h1 or rec)
+                if cont is not exp and bad is None:
+                    bad = (h1, h2, rec, cont)
+    chk.count('R7 valuations', n)
+    chk.ob('R7-equality', 'rec_equal treats the two trees symmetrically on all %d valuations' % n,
+           '%s:%d' % (rel(f['file']), f['line']), bad is None,
+           '' if bad is None else 'left node has children: %s, right node has children: %s, children equal: %s -> the '
+           'walk %s' % (bad[0], bad[1], bad[2], 'continues' if bad[3] else 'returns false'), key='R7|rec_equal')
 
 
 def run_r4(chk, fns):
